@@ -40,16 +40,25 @@ Definition f64_lt0 (x : float) : bool := PrimFloat.ltb x PrimFloat.zero.
 Definition sf_signed_mantissa (s : bool) (m : positive) : Z :=
   if s then Zneg m else Zpos m.
 
-(* f64::floor *)
+(* the float with value p, for p < 2^53 (exact: mantissa shifted to 53 digits) *)
+Definition sf_of_pos_int (p : positive) : spec_float :=
+  match 53 - Zpos (digits2_pos p) with
+  | Zpos k => S754_finite false (shift_pos k p) (Zneg k)
+  | _ => S754_finite false p 0
+  end.
+
+(* f64::floor: a float with a non-negative exponent is an integer; otherwise
+   |x| < 2^53 and the floor (Z./ rounds down) is converted back exactly *)
 Definition f64_floor (x : float) : float :=
   match Prim2SF x with
   | S754_finite s m e =>
       if 0 <=? e then x
       else
-        let z := sf_signed_mantissa s m / 2 ^ (- e) in   (* Z./ rounds down *)
-        if z =? 0 then PrimFloat.zero
-        else if z <? 0 then PrimFloat.opp (PrimFloat.of_uint63 (Uint63.of_Z (- z)))
-        else PrimFloat.of_uint63 (Uint63.of_Z z)
+        match (sf_signed_mantissa s m / 2 ^ (- e))%Z with
+        | Z0 => PrimFloat.zero
+        | Zpos p => SF2Prim (sf_of_pos_int p)
+        | Zneg p => PrimFloat.opp (SF2Prim (sf_of_pos_int p))
+        end
   | _ => x
   end.
 
